@@ -133,3 +133,26 @@ def run(ctx):
             if a_ != b_ or a_ != w_:
                 ctx.fail('clifford_rotation_map', 'the map built from a generator and the rotation itself act differently (map %s, rotation %s, conjugation %s)' % (a_, b_, w_),
                          dict(G=Gop, P=Q))
+    # ... also through a qubit mask: transform_by(rotation map of G, mask) = rotate_by(G, mask) = conjugation by the embedded G,
+    # for every mask (contiguous, with one hole, with several holes)
+    import itertools
+    masks = [list(idx) for n in (2, 3, 4, 5) for k in range(1, n + 1) for idx in itertools.combinations(range(n), k)]
+    for _ in range(ctx.budget(150, 2000)):
+        idx = rng.choice(masks)
+        n = rng.choice([m for m in (2, 3, 4, 5, 6) if m > idx[-1]])
+        m = np.array([i in idx for i in range(n)])
+        Gop = G.rand_herm(rng, len(idx), nonid=True)
+        rm = pc.clifford_rotation_map(impl.pauli(Gop))
+        Qs = [G.rand_op(rng, n, density=rng.choice([None, 1.0])) for _ in range(5)]
+        try:
+            viamap = impl.ops_of(impl.plist(Qs).transform_by(rm, m))
+            viarot = impl.ops_of(impl.plist(Qs).rotate_by(impl.pauli(Gop), m))
+        except Exception as e:
+            ctx.fail('transform_by(mask)', 'implementation raised %r' % e, dict(G=Gop, idx=idx, Qs=Qs)); continue
+        want = [H.rotate_masked(Gop, idx, Q) for Q in Qs]
+        ctx.count('rotmap-mask-N=%d-k=%d' % (n, len(idx)))
+        for Q, a_, b_, w_ in zip(Qs, viamap, viarot, want):
+            ctx.case(('rotmap-vs-rotate-mask', Gop, tuple(idx), Q), w_ != Q, sample=dict(op='rotation map vs rotate_by through a mask', G=Gop, mask=idx, P=Q))
+            if a_ != b_ or a_ != w_:
+                ctx.fail('clifford_rotation_map', 'through the mask %s the map built from a generator and the rotation itself act differently (map %s, rotation %s, conjugation %s)' % (idx, a_, b_, w_),
+                         dict(G=Gop, idx=idx, P=Q))
